@@ -87,7 +87,8 @@ Section Nesterov.
   | EOmega (omega : F)             (* line 159: omega > upper_bound *)
   | EConverged (ray_len : F)       (* line 176: cv_check_passed, not accelerating *)
   | EInside                        (* line 199: projection reports inside, or ray_len == 0 *)
-  | EMaxIter (ray_len : F).        (* while condition fails (commit b028d6b): distance = ray_len - inflation *)
+  | EMaxIter (ray_len : F)         (* while condition fails (commit b028d6b): distance = ray_len - inflation *)
+  | EDuplicate (ray_len : F).      (* F-N5 repair: the new support point is already a vertex of the simplex *)
 
   (** (inside, distance) as returned: lines 136-137, 160-161, 182-184, 200-201 and the cap exit after the loop
       (`if i >= max_interations: distance = ray_len - inflation; inside = distance < tolerance`, commit b028d6b).
@@ -99,6 +100,7 @@ Section Nesterov.
     | EConverged ray_len => let distance := ray_len - infl in (distance <? tolerance, distance)
     | EInside => (true, - infl - one)
     | EMaxIter ray_len => let distance := ray_len - infl in (distance <? tolerance, distance)
+    | EDuplicate ray_len => let distance := ray_len - infl in (distance <? tolerance, distance)
     end.
 
   (** [gjk_nesterov_accelerated_distance]: [max(gjk_nesterov_accelerated(c1, c2)[1], 0.0)] *)
